@@ -152,7 +152,7 @@ def draw_tm(draw, text: str, depth: int, budget, line_model: bool = False):
 
 
 # ---- TEXT-TRANSFORMER ------------------------------------------------------------------------------------------
-_strip_variant = st.sampled_from([None, None, 'space', 'nl'])
+_strip_variant = st.sampled_from([None, None, 'space', 'nl', 'nl'])
 _case = st.sampled_from(['lower', 'upper'])
 
 
